@@ -137,3 +137,29 @@ add("C20", "model_checking", "stateless DFS over the complete tree of RNG answer
     "well-formedness are checked. The harness asserts that numpy's global RNG state is untouched (no unowned nondeterminism).",
     "Trees beyond the stated caps are explored within a deviation bound (<=2/<=1 non-default answers; default path only for most 3x3 matrices in quick) — exhaustive=false is reported; populations above 3 cells not explored.",
     "DESIGN.md §7 C20")
+
+
+# ---- families added while the checks were hardened against seeded changes (DESIGN.md §15.4); appended to the level text
+def extend(i, more):
+    level, technique, text, note, ref = CHECKS[i]
+    CHECKS[i] = (level, technique, text + " Added later: " + more, note, ref)
+
+
+extend("C01", "shapes with 5-6 branches and unsorted parents, single-parameter edit sequences after a simulation, a jaxpr taint monitor for the data-independence assumption.")
+extend("C02", "the explicit step (fwd_euler) on unbranched modules, with the membrane currents taken at the old voltages.")
+extend("C03", "a slow unbinding rate (k_minus = 1e-3) in the kinetic alphabet.")
+extend("C04", "rename chains on customised instances; init_state under the key map; the numpy route (one writable voltage/state array handed to init_state, update_states and compute_current in a row: inputs untouched, equal to the jax-array route).")
+extend("C05", "compartments with length == 2*radius (ball somata) as stimulated, trainable and postsynaptic compartments; chunked simulations whose loss reads a second integrate call continued from returned states (over-long checkpoint layout).")
+extend("C06", "integrate / one edit of a 21-edit alphabet / integrate against edit / integrate (hidden state left by integrate); non-default dt; an unbranched stiff cable with the explicit solver through all modes, histories and checkpoint layouts.")
+extend("C07", "non-default dt; a clamp on a synaptic state of the second synapse type; a model without any external input (run length from t_max); a channel whose update reads a membrane current; the caller's all_states dict compared before/after every call.")
+extend("C08", "mixed stored and data-fed inputs; deletions through views between inputs (survivors keep their own targets).")
+extend("C09", "many-edge type interleavings; every history also with each edge customised right after its own connect; the same network silenced through type views after a simulation and simulated again.")
+extend("C10", "explicit init_val forms; set between simulation and write_trainables; data_set through the original view; non-ascending selections grouped by a child level; the same param_state/params objects passed twice and compared before/after; chained overlapping data_set calls.")
+extend("C11", "a network whose channel was inserted before assembly (object-dtype flag column); views held while the module is edited through another view, then used as mutators.")
+extend("C13", "set_ncomp with min_radius (cap per branch according to its last call, also when n is unchanged); a group registered from a non-ascending selection.")
+extend("C15", "every rung of a ladder is judged; cables built as 2- and 4-branch cells with c_m != 1 and as two branches with unequal compartments at the junction; dt ladders for the relaxation of a voltage profile on 4-compartment cables against the exact semi-discrete solution.")
+extend("C16", "a long-section family crossing the 10-piece limit; type patterns 'first listed child differs' and 'type 0 between two types'; a 3-point soma chain along the last children (neurites at inner soma points listed before the soma continues).")
+extend("C17", "ParamTransform with duplicate keys and plain arrays; the numpy route (forward/inverse twice on one writable array; two entries sharing one leaf).")
+extend("C18", "coordinate-editing operations; copies of views (pickle, deepcopy, .copy()) incl. make_trainable/set through the copy; copies used after the original was garbage-collected; every initial state saved and loaded in a fresh interpreter; originals built from scratch (never from a deep copy); groups sharing one index array.")
+extend("C19", "six initial states (heterogeneous pre-assembled network, uniform cell on which set_ncomp is accepted, network with recordings/stimuli/clamps of membrane and synaptic states in non-ascending order); frame invariants I8 (deletions through views, incl. alignment of surviving data rows), I10 (delete_channel through a view), I11 (connect), I12 (groups after set_ncomp).")
+extend("C20", "numpy.random.rand/uniform/randint/permutation owned by the oracle; a 12-cell network with populations around cell index 8 and structured 4x4 matrices.")
